@@ -63,7 +63,7 @@ def streams(tier, rng, fs, profile):
     ]
     # power-of-two moderate path: the invalid marker `power2 + INVALID_FP` at exponents beyond 32768
     comp, api = gens_algos.marker_overflow_ops(rng, fs, tier)
-    out += [("comp-bin-marker", comp), ("g-marker", api)]
+    out += [("g-marker", api), ("comp-bin-marker", comp)]
     return out
 
 
